@@ -198,6 +198,13 @@ class Gen:
                 ops.append(self.read())
             else:
                 a = self.write(tmax)
+                if a["op"] in ("remove", "drop_measurement", "update") and self.r.random() < self.focus.get("repeat", 0.25):
+                    # the same call again: the second remove must remove nothing, the second static update change nothing
+                    ops.append(a)
+                    if self.r.random() < 0.5:
+                        ops.append(self.read())
+                    ops.append({"op": "__repeat__"})
+                    continue
                 if a["op"] == "insert":
                     tmax = max(tmax, a["p"]["t"])
                 if a["op"] == "insert_multiple":
